@@ -4,7 +4,7 @@ Shapes (anything else is left untouched):
   S1  CHAIN.for_each(|PAT| BODY);                  CHAIN := SRC | SRC.zip(CHAIN) | izip!(SRC, SRC, ...)
   S2  for PAT in CHAIN { BODY }                    SRC   := E.iter() | E.iter_mut() [.step_by(G)] [.take(N)] [.skip(K)] | E.chunks_exact(G) | E.chunks_exact_mut(G)
   S3  for j in (LO..HI).rev() { BODY }             (countdown while)
-  S4  for v in IDENT { BODY }                      (IDENT a bare identifier: `&mut [T]` parameter)
+  S4  for v in IDENT { BODY }                      (IDENT a bare identifier: `&mut [T]` parameter);  S4b  for v in &PATH / &mut PATH { BODY }
   S5  (LO..HI).for_each(|i| BODY);
   S7  for (P, Q) in (A..B).zip(C..D) { BODY }      (two counters advancing together over the shorter range)
   R7  (x, y) = (e1, e2);   /  let (x, y): (T, U);
@@ -396,6 +396,13 @@ def apply(body, fired):
                     # S4: for v in S
                     srcs = [Src(itc[0].text, True)]
                     rep = _gen_loop(ctx, srcs, names, loop_body, fired)
+                elif names is not None and len(names) == 1 and len(itc) >= 2 and itc[0].text == '&' and all(x.kind == 'id' or x.text == '.' for x in itc[1:]) and itc[-1].kind == 'id' and itc[-1].text != 'mut':
+                    # S4b: for v in &PATH / &mut PATH   (PATH: identifiers joined by `.`): elements by shared / mutable reference
+                    mut_ = itc[1].kind == 'id' and itc[1].text == 'mut'
+                    path = ''.join(x.text for x in itc[(2 if mut_ else 1):])
+                    if path:
+                        srcs = [Src(path, mut_)]
+                        rep = _gen_loop(ctx, srcs, names, loop_body, fired)
                 elif names is not None:
                     srcs = _parse_chain(it)
                     if srcs is not None:
